@@ -8,14 +8,9 @@ open WS WS.Py WS.Lemmas.Cookie
 open WS.Model.Cookie
 open WS.Spec.Cookie (Response Store record storeOf covers covering Admissible NameSorted)
 
-/-- a history as the model sees it (parsed, canonical rendering). -/
-def parsed (hist : List Response) : List (List (Str × Str) × Option Str) :=
-  hist.map fun r => (r.cookies, r.domain)
-
-theorem jarOf_parsed (hist : List Response) :
-    jarOf (parsed hist) = hist.foldl (fun jar r => add jar (morselsOf r.cookies r.domain)) [] := by
-  unfold jarOf parsed
-  rw [List.foldl_map]
+/-- generated facts (T): `add` lower-cases the domain before looking it up; `get` sorts the
+    (name, value) pairs (each false of a tree without the corresponding repair). -/
+theorem code_shape : Gen.cookieLookupLowered = true ∧ Gen.cookieSortsPairs = true := cookie_shape
 
 /-- the jar after a history refines the Spec's store after that history. -/
 theorem jar_refines_store (hist : List Response) : Rel (jarOf (parsed hist)) (storeOf hist) := by
@@ -69,15 +64,6 @@ theorem C20_confined (hist : List Response) (host n v : Str) (hne : host ≠ [])
 theorem C20_no_domain_dropped (jar : Jar) (cookies : List (Str × Str)) (dom : Option Str)
     (h : (dom.getD []).isEmpty = true) : add jar (morselsOf cookies dom) = jar :=
   add_no_domain jar cookies dom h
-
-/-- evaluation helper (`mergeSort` is by well-founded recursion, so `decide` goes through the
-    already-sorted case). -/
-theorem getPairs_of_sorted (jar : Jar) (host : Str) (L : List (Str × Str))
-    (hne : host.isEmpty = false) (hc : collected jar host = L)
-    (hs : L.Pairwise fun a b => pairLe a b = true) : getPairs jar host = L := by
-  unfold getPairs
-  rw [hne, hc]
-  exact List.mergeSort_of_pairwise hs
 
 /-- non-vacuity: the two F10 inputs, after the repairs; a look-alike host; no Domain. -/
 example :
